@@ -363,6 +363,67 @@ theorem wrap_injective (m : ℕ) (h h' : ℤ) (hlo : -(m : ℤ) ≤ h) (hhi : h 
   unfold wrapIndex at heq
   split at heq <;> split at heq <;> omega
 
+/-! ### the executable Gaussian-rational model is the structure factor -/
+
+/-- Gaussian rational as a complex number -/
+def toC (z : GQ) : ℂ := ⟨(z.re : ℝ), (z.im : ℝ)⟩
+
+lemma toC_add (a b : GQ) : toC (GQ.add a b) = toC a + toC b := by
+  apply Complex.ext <;> simp [toC, GQ.add]
+
+lemma toC_smul (r : ℚ) (a : GQ) : toC (GQ.smul r a) = (r : ℂ) * toC a := by
+  apply Complex.ext <;> simp [toC, GQ.smul]
+
+lemma exp_quarter : Complex.exp (-(2 * Real.pi * ((1 : ℂ) / 4)) * I) = -I := by
+  have : -(2 * Real.pi * ((1 : ℂ) / 4)) * I = -((Real.pi / 2 : ℝ) : ℂ) * I := by push_cast; ring
+  rw [this, neg_mul, Complex.exp_neg, Complex.exp_mul_I, ← Complex.ofReal_cos, ← Complex.ofReal_sin, Real.cos_pi_div_two,
+    Real.sin_pi_div_two]
+  simp
+
+/-- the exact phase table of the executable model: `phaseQ m = exp(-2πi m/4)` -/
+theorem phaseQ_correct (m : ℤ) : toC (phaseQ m) = Complex.exp (-(2 * Real.pi * ((m : ℂ) / 4)) * I) := by
+  obtain ⟨k, r, hr0, hr4, rfl⟩ : ∃ k r : ℤ, 0 ≤ r ∧ r < 4 ∧ m = 4 * k + r := ⟨m / 4, m % 4, by omega, by omega, by omega⟩
+  have hsplit : -(2 * Real.pi * (((4 * k + r : ℤ) : ℂ) / 4)) * I = -(2 * Real.pi * (k : ℂ)) * I + -(2 * Real.pi * ((r : ℂ) / 4)) * I := by
+    push_cast; ring
+  rw [hsplit, Complex.exp_add, exp_int, one_mul]
+  have hmod : (4 * k + r) % 4 = r := by omega
+  have hpow : ∀ n : ℕ, Complex.exp (-(2 * Real.pi * ((n : ℂ) / 4)) * I) = (-I) ^ n := by
+    intro n
+    rw [← exp_quarter, ← Complex.exp_nat_mul]; congr 1; ring
+  unfold phaseQ
+  rw [hmod]
+  have hcases : r = 0 ∨ r = 1 ∨ r = 2 ∨ r = 3 := by omega
+  rcases hcases with rfl | rfl | rfl | rfl
+  · apply Complex.ext <;> simp [toC]
+  · have := hpow 1; simp at this; apply Complex.ext <;> simp [toC, this]
+  · have := hpow 2; simp at this
+    have h2 : Complex.exp (-(2 * Real.pi * ((2 : ℂ) / 4)) * I) = -1 := by simpa using this
+    rw [show ((2 : ℤ) : ℂ) = 2 by norm_num, h2]; apply Complex.ext <;> simp [toC]
+  · have := hpow 3
+    have h3 : Complex.exp (-(2 * Real.pi * ((3 : ℂ) / 4)) * I) = I := by
+      rw [show ((3 : ℕ) : ℂ) = 3 by norm_num] at this; rw [this]; ring_nf; simp
+    rw [show ((3 : ℤ) : ℂ) = 3 by norm_num, h3]; apply Complex.ext <;> simp [toC]
+
+lemma foldl_sum (h : HKL) (atoms : List (HKL × ℚ)) (z : GQ) :
+    toC (atoms.foldl (fun acc a => GQ.add acc (GQ.smul a.2 (phaseQ (qdot a.1 h)))) z)
+      = toC z + (atoms.map fun a => sfTerm ((a.2 : ℝ) : ℂ) (((qdot a.1 h : ℤ) : ℂ) / 4)).sum := by
+  induction atoms generalizing z with
+  | nil => simp
+  | cons a as ih =>
+    rw [List.foldl_cons, ih, toC_add, toC_smul, phaseQ_correct, List.map_cons, List.sum_cons, sfTerm_eq]
+    push_cast; ring
+
+/-- **The executable model is the structure factor**: for atoms on quarter positions `p_j = q_j/4` the exact
+Gaussian-rational value computed by the driver (`sfQ`, compared with `calculate_structure_factors` in the
+correspondence) is `Σ_j sfTerm(f_j, p_j·h) / volume` with the generated summand -/
+theorem sfQ_correct (vol : ℚ) (atoms : List (HKL × ℚ)) (h : HKL) :
+    toC (sfQ vol atoms h)
+      = (1 / (vol : ℂ)) * (atoms.map fun a => sfTerm ((a.2 : ℝ) : ℂ) (((qdot a.1 h : ℤ) : ℂ) / 4)).sum := by
+  unfold sfQ
+  rw [toC_smul, foldl_sum]
+  have : toC GQ.zero = 0 := by apply Complex.ext <;> simp [toC, GQ.zero]
+  rw [this, zero_add]; push_cast; ring
+
 /-! ### non-vacuity -/
 example : (("A", [[(0 : ℚ), 0, 0], [0, (1 : ℚ) / 2, (1 : ℚ) / 2]]) : String × List (List ℚ)) ∈ centeringTranslations := by
   simp [centeringTranslations]
